@@ -83,7 +83,7 @@ func (o *oracle) parseField(typ byte, w int, s string) okey {
 
 func (o *oracle) parse(s string) okey {
 	switch {
-	case o.kind == "alpha":
+	case o.kind == "alpha" || o.kind == "raw":
 		b := xbytes(s)
 		return okey{txt: xhex(b), b: b}
 	case o.kind == "coll":
@@ -153,7 +153,7 @@ func cmpField(typ byte, a, b okey) int {
 
 func (o *oracle) cmp(a, b okey) int {
 	switch {
-	case o.kind == "alpha":
+	case o.kind == "alpha" || o.kind == "raw":
 		return bytes.Compare(a.b, b.b)
 	case o.kind == "coll":
 		return o.col.Compare(a.b, b.b)
@@ -278,6 +278,13 @@ func (o *oracle) expect(toks []string) string {
 		}
 		a, b := o.parse(toks[2]), o.parse(toks[3])
 		ks := o.sorted()
+		if o.kind == "raw" && (len(a.b) == 0 || len(b.b) == 0) {
+			// a bound with an empty encoding is outside every prefix-free codec: only "an empty tree yields nothing" is required
+			if len(ks) == 0 {
+				return fmtSeq(tag, nil, parseStops(toks[4]))
+			}
+			return "*"
+		}
 		if o.kind == "alpha" && len(b.b) == 0 {
 			if len(ks) == 0 {
 				return fmtSeq(tag, nil, parseStops(toks[4]))
